@@ -307,6 +307,26 @@ func c17WorldRun(j vs.Job, p c17Params) *vs.JobResult {
 			}
 			for i, kind := range p.Attackers {
 				i, kind := i, kind
+				if kind == "relay-plus" {
+					// a stranger on the jump host dials the relay's own tunnel port and presents the right greeting followed by more bytes in the same segment
+					vs.GoDaemon(fmt.Sprintf("attacker%d", i), func() {
+						vs.WaitUntil("attacker.wait", func() bool { return len(w.relays) > 0 && w.relays[0].tunnelListener.Load() != nil })
+						var port int
+						var uid string
+						vs.Peek(func() { port, uid = w.relays[0].tunnelRelayPort, w.relays[0].trigger.uniqueID })
+						c := vs.Dial(port, fmt.Sprintf("atk%d", i))
+						if c == nil {
+							return
+						}
+						hello, _ := getHelloConstant(uid, port)
+						c.Write([]byte(hello + "#ACT:eJwDAAAAAAE\n#fail:EVIL\n"))
+						buf := make([]byte, 200)
+						if n, _ := c.Read(buf); n > 0 {
+							w.attackerAnswered = fmt.Sprintf("the relay answered a connection whose greeting was followed by more bytes: %q", buf[:n])
+						}
+					})
+					continue
+				}
 				vs.GoDaemon(fmt.Sprintf("attacker%d", i), func() {
 					// strangers try the port the server listens on (the first one opened in this execution)
 					vs.WaitUntil("attacker.wait", func() bool { return w.srvStarted })
@@ -347,6 +367,9 @@ func c17WorldRun(j vs.Job, p c17Params) *vs.JobResult {
 			}
 		})
 		v := c01Oracle(w, res, true)
+		if v == "" && w.attackerAnswered != "" {
+			v = w.attackerAnswered
+		}
 		o := fmt.Sprintf("ok=%v tunnel=%v", v == "", len(res.TunC2S) > 0)
 		if v == "" && (p.Connector == "nil" || p.Connector == "dead") && bytes.Contains(res.TunC2S, []byte("#ACT:")) {
 			v = "the transfer used a tunnel although the connector was " + p.Connector
@@ -421,7 +444,7 @@ func init() {
 			"all schedules within 2 (quick) / 3 (thorough) deviations of the default schedule (context switch at any scheduling point, select alternative, one timer landing first); (b) full transfers with the tunnel: in-band bytes injected after both ends agreed, connector refusing / late / dead, strangers dialling the server's port, all single schedule deviations",
 		Assumptions: []string{"the network is the fake one of the harness (Accept order, every Read and Write are scheduling points); one write is delivered by one read", "a stranger who presents the exact greeting is by definition authenticated: only 'at most one adopted' and byte isolation are asserted for it"},
 		TraceNote:   "explored directly on the implementation; the number counts executions replayed from recorded choice lists",
-		QuickBudget: 110, ThoroughBudget: 1500,
+		QuickBudget: 240, ThoroughBudget: 1500,
 		Jobs: func(tier string) []vs.Job {
 			var jobs []vs.Job
 			maxAtk, bound := 2, 1
@@ -474,10 +497,14 @@ func init() {
 						{Connector: "ok", Attackers: []string{"wrong", "flood", "silent"}},
 					} {
 						if relays == 1 && len(c.Attackers) > 0 {
-							continue // through a relay the first port opened belongs to the relay chain, strangers are covered by the direct case
+							// through a relay the strangers of the direct case are replaced by one that dials the relay's own port
+							c.Attackers = []string{"relay-plus"}
 						}
 						c.Mode, c.W, c.Bound = "world", &base, 1
 						n := 4
+						if len(c.Attackers) == 1 && c.Attackers[0] == "relay-plus" && tier != "thorough" {
+							c.Bound, n = 0, 1 // the default schedule in quick, every single deviation in thorough
+						}
 						for s := 0; s < n; s++ {
 							c.Shard, c.NShards = s, n
 							jobs = append(jobs, vs.MkJob(fmt.Sprintf("world %s relays=%d conn=%s junk=%v early=%v atk=%v %d/%d", dir, relays, c.Connector, c.Junk, c.JunkEarly, c.Attackers, s, n), c))
